@@ -268,7 +268,7 @@ def check_property(prop, tier='quick', only=None, jobs=None, verbose=False, seed
     bnd_h = [h for h in hs if h.kind == 'bounded']
     tasks = [(h.key, vi) for h in sym_h for vi in range(len(h.variants))]
     hmap = {h.key: h for h in hs}
-    task_timeout = 240 if tier == 'quick' else 1800
+    task_timeout = 900 if tier == 'quick' else 3600
     max_paths = 400 if tier == 'quick' else 4000
     results = run_tasks(prop, tasks, tier, jobs, task_timeout, max_paths)
 
